@@ -55,11 +55,15 @@ def get_build(kind="plain", log=print):
     lk = _lock("build-" + kind)
     try:
         if os.path.exists(os.path.join(d, ".ok")):
+            os.utime(os.path.join(d, ".ok"))
             return d
-        # drop older builds of this kind
-        for e in os.listdir(CACHE):
-            if e.startswith("build-%s-" % kind):
-                shutil.rmtree(os.path.join(CACHE, e), ignore_errors=True)
+        # keep the few most recently used builds of this kind (other checks, possibly against another
+        # tree via VERIF_REPO, may be using them right now); drop older ones
+        olds = sorted((e for e in os.listdir(CACHE) if e.startswith("build-%s-" % kind)),
+                      key=lambda e: os.path.getmtime(os.path.join(CACHE, e, ".ok"))
+                      if os.path.exists(os.path.join(CACHE, e, ".ok")) else 0)
+        for e in olds[:-3]:
+            shutil.rmtree(os.path.join(CACHE, e), ignore_errors=True)
         os.makedirs(d)
         t0 = time.time()
         cflags = "" if kind == "nohook" else "-D" + GUARD
